@@ -31,3 +31,13 @@ reg('C02', engine='llsym',
          'against the real build on every run), CPython API contracts in vf/pystubs.py, placement invariant '
          'bitshift+bitsize<=8*size (established by C01). _Bool limited to width 1.',
     technique='symbolic execution of LLVM IR, SMT (z3 bit-vectors), counterexample replay on the real build')
+
+reg('C03', engine='llsym',
+    text='Bounded symbolic execution of the three real integer store kernels (convert_from_object, the API-mode '
+         '_cffi_to_c_<T> helpers, convert_from_object_fficallback) with the Python int and the previous memory '
+         'content symbolic: accept iff in range, exact round-trip, OverflowError + unchanged memory on reject, '
+         'whole ffi_arg written for callback results -- each a z3 query over all values.',
+    note='Trusted: clang IR at -O0+mem2reg, llsym semantics (validated concretely against the real build each run), '
+         'CPython contracts in vf/pystubs.py. Not covered: argument routing inside generated wrappers, non-int '
+         'initializers, the _cffi_to_c_int macro for typedef-ed types.',
+    technique='symbolic execution of LLVM IR, SMT (z3 bit-vectors), counterexample replay on the real build')
